@@ -78,18 +78,21 @@ def run(ck):
         if it[0] != "app":
             raise AnalysisError(f"{w}: source of the {names[0]} rows not recognised: {T.show(it)[:120]}")
         helper_q = it[1]
+        hp0 = [pp.name for pp in p.get_function(helper_q).call_params()]
         a = dict(it[3])
-        ck.judge(a.get("source") == src and a.get("target") == tgt and not ifs, "C19.1", short(cmp_fn) + f":only{side}", w,
+        a_src, a_tgt = (a.get(hp0[0]), a.get(hp0[1])) if len(hp0) >= 2 else (None, None)
+        ck.judge(a_src == src and a_tgt == tgt and not ifs, "C19.1", short(cmp_fn) + f":only{side}", w,
                  f"{names[0]} rows = alignments whose key is in set {side} and not in the other set",
-                 found=f"source={T.show(a.get('source', C(None)))[:60]}, target={T.show(a.get('target', C(None)))[:60]}",
+                 found=f"source={T.show(a_src)[:60] if a_src else None}, target={T.show(a_tgt)[:60] if a_tgt else None}",
                  required=f"notMatching(D{side}, D{'2' if side == '1' else '1'})")
     helper = p.get_function(helper_q)
+    hps = [V(pp.name) for pp in helper.call_params()]
     for pa in explore(ck, helper):
         if pa.outcome != "return":
             continue
         hv = pa.value
-        okh = hv[0] == "comp" and len(hv[3]) == 1 and hv[3][0][0] == ("mcall", V("source"), "items", (), ()) and \
-            len(hv[3][0][1]) == 1 and hv[3][0][1][0][0] == "notin" and hv[3][0][1][0][2] == V("target") and \
+        okh = hv[0] == "comp" and len(hv[3]) == 1 and hv[3][0][0] == ("mcall", hps[0], "items", (), ()) and \
+            len(hv[3][0][1]) == 1 and hv[3][0][1][0][0] == "notin" and hv[3][0][1][0][2] == hps[1] and \
             hv[3][0][1][0][1] == T.mk_idx([x for x in T.subterms(hv[2]) if x[0] == "bv"][0], C(0)) and \
             hv[2] == T.mk_idx([x for x in T.subterms(hv[2]) if x[0] == "bv"][0], C(1))
         ck.judge(bool(okh), "C19.1", short(helper), where(helper, pa.node),
